@@ -139,6 +139,7 @@ func cmdCheck(prop, tier string) int {
 		pr           gosym.PathResult
 		witness      bool
 		modelOnly    bool
+		clockModel   bool
 	}
 	var cands []cand
 	var hev []harnessEvidence
@@ -191,10 +192,10 @@ func cmdCheck(prop, tier string) int {
 			funcs[f] += n
 		}
 		for _, v := range res.Violations {
-			cands = append(cands, cand{s.h.Dir, s.h.Func, s.params, cfg.StrPool, v, false, s.h.ModelOnly})
+			cands = append(cands, cand{s.h.Dir, s.h.Func, s.params, cfg.StrPool, v, false, s.h.ModelOnly, s.h.ClockModel})
 		}
 		for _, w := range res.Witnesses {
-			cands = append(cands, cand{s.h.Dir, s.h.Func, s.params, cfg.StrPool, w, true, s.h.ModelOnly})
+			cands = append(cands, cand{s.h.Dir, s.h.Func, s.params, cfg.StrPool, w, true, s.h.ModelOnly, s.h.ClockModel})
 		}
 		for _, ic := range res.Inconclusive {
 			inconclusive = append(inconclusive, s.h.Func+": "+ic.Kind+": "+trunc(ic.Msg, 400))
@@ -264,7 +265,7 @@ func cmdCheck(prop, tier string) int {
 		if c.witness {
 			ok := n.Kind == "pass"
 			for tag, v := range c.pr.Observed {
-				if n.Obs[tag] != v {
+				if n.Obs[tag] != v && !c.clockModel {
 					ok = false
 				}
 			}
@@ -287,6 +288,11 @@ func cmdCheck(prop, tier string) int {
 		reproduced := n.Kind == "assert" || n.Kind == "panic"
 		if c.pr.Kind == "deadlock" {
 			reproduced = c.modelOnly
+		}
+		if !reproduced && c.clockModel {
+			// depends on the instants the clock model returned: cannot be steered natively
+			reproduced = true
+			n.Msg = "found in the clock model; the native run (wall clock) did not take this path: " + n.Kind + " " + n.Msg
 		}
 		if !reproduced {
 			inconclusive = append(inconclusive, fmt.Sprintf("ENCODING-MISMATCH %s: candidate %s (%s) did not reproduce natively (native: %s %s)", c.harness, c.pr.Kind, trunc(c.pr.Msg, 300), n.Kind, trunc(n.Msg, 200)))
